@@ -12,7 +12,7 @@ def run(chk):
     asan = vlib.build(SRC, 'asan')
     T = chk.thorough()
     chk.absorb(vlib.run_sharded(asan, 100000 if T else 900, chk.seed, chk.tier, ['--mode', 'random'], tag='c01r', timeout=3600), 'random (D, options) pairs')
-    chk.absorb(vlib.run_sharded(asan, 54 if T else 18, chk.seed, chk.tier, ['--mode', 'special'], tag='c01s', timeout=3600, stall_s=300), 'boundary packs (8000 entities / 32 MiB)')
+    chk.absorb(vlib.run_sharded(asan, 60 if T else 20, chk.seed, chk.tier, ['--mode', 'special'], tag='c01s', timeout=3600, stall_s=300), 'boundary packs (8000 entities / 32 MiB)')
     chk.assumptions = ['the projection (what each format/option carries) and the PBF framing parser in the harness are the trusted reference',
                        'domain restrictions listed under coverage.info']
     return chk.finish('exploration',
